@@ -77,6 +77,19 @@ class LinearOperator(Function):
 
         self.T.add_class_constraints = no_class_constraint_for_transpose
 
+    @staticmethod
+    def set_adjoint_constraint_i_j(xi, yi, fi,
+                                   uj, vj, hj,
+                                   ):
+        """
+        Formulates the adjoint relation between a sample (xi, yi) of self and a sample (uj, vj) of its transpose.
+
+        """
+        # Constraint X^T V = Y^T U
+        constraint = (xi * vj == yi * uj)
+
+        return constraint
+
     def add_class_constraints(self):
         """
         Formulates the list of necessary and sufficient conditions for interpolation of self
@@ -84,15 +97,11 @@ class LinearOperator(Function):
         """
 
         # Add interpolation constraints for linear operator
-        for point_xy in self.list_of_points:
-
-            xi, yi, fi = point_xy
-
-            for point_uv in self.T.list_of_points:
-                uj, vj, hj = point_uv
-
-                # Constraint X^T V = Y^T U
-                self.list_of_class_constraints.append(xi * vj == yi * uj)
+        self.add_constraints_from_two_lists_of_points(list_of_points_1=self.list_of_points,
+                                                      list_of_points_2=self.T.list_of_points,
+                                                      constraint_name="adjoint",
+                                                      set_class_constraint_i_j=self.set_adjoint_constraint_i_j,
+                                                      )
 
         # Add constraint of singular value upper bound of self
         N1 = len(self.list_of_points)
